@@ -29,6 +29,8 @@ def main():
     ok = True
     for meta_path in sorted(glob.glob(os.path.join(HERE, 'refactors', '*', 'meta.json'))):
         m = json.load(open(meta_path))
+        if len(sys.argv) > 1 and m['id'] not in sys.argv[1:]:
+            continue
         d = os.path.dirname(meta_path)
         base = tempfile.mkdtemp(prefix='parsolint-rfbase-')
         new = tempfile.mkdtemp(prefix='parsolint-rf-')
